@@ -432,7 +432,16 @@ pub fn end_to_end_cells(tier: Tier) -> Vec<CellPlan> {
         c.rounds = if q { 3 } else { 4 };
         c.env = Env { hold_acks: true, hold_updates: 0, mutations: MutMenu::Full, leftover_choice: false, lossy: false };
         c.oracles = Oracles { c12: true, c02: true, ..Default::default() };
-        v.push(plan(c, if q { 2 } else { 3 }, 2.0));
+        v.push(plan(c.clone(), if q { 2 } else { 3 }, 2.0));
+        if off == 0 {
+            // marked and plain entities side by side
+            let mut m = c;
+            m.name = "c12-history-mixed".into();
+            m.cfg.hist_mixed = true;
+            m.init = vec![Op::Spawn(0, cells::AB), Op::Spawn(1, cells::M_A), Op::Spawn(2, cells::M_A)];
+            m.alphabet = vec![Op::Nop, Op::Mut(0, TA), Op::Mut(1, TA), Op::Mut(2, TA)];
+            v.push(plan(m, if q { 2 } else { 3 }, 2.0));
+        }
     }
     let mut offsets = vec![0u32];
     if !q {
